@@ -11,6 +11,7 @@ import math
 from fractions import Fraction
 
 from simkit import bootstrap
+from simkit import simtime
 from simkit.choice import rng_for, Log, pick, weighted
 from simkit.shrink import shrink_list_at, replace_at
 from . import BaseEngine, Violation
@@ -177,7 +178,7 @@ class Playback(BaseEngine):
         return {'prop': prop, 'type': ftype, 'tpb': tpb, 'tracks': tracks, 'clock': clock,
                 'delays': delays, 'abandon_after': pick(rng, (None, None, None, 0, 1, 3)),
                 'meta_messages': rng.random() < 0.4, 'second': second, 'bystander': bystander,
-                'play_mutate': rng.random() < 0.3}
+                'play_mutate': rng.random() < 0.3, 'default_now': rng.random() < 0.25}
 
     # ------------------------------------------------------------ execution
     def abort_cleanup(self):
@@ -189,6 +190,14 @@ class Playback(BaseEngine):
         PC.abort_cleanup()
 
     def run(self, prop, plan, keep_log=False):
+        _vc = simtime.VClock(5000.0)
+        simtime.activate(_vc.read, _vc.sleep)
+        try:
+            return self._run_inner(prop, plan, keep_log)
+        finally:
+            simtime.deactivate()
+
+    def _run_inner(self, prop, plan, keep_log=False):
         if plan.get('mode') == 'twin_threads':
             from .ports_conc import ENGINE as PC
             return PC.run(prop, plan, keep_log=keep_log)
@@ -385,8 +394,14 @@ class Playback(BaseEngine):
             jumps[k] += j
         mag = abs(cfg['start']) + float(model[-1][2]) + sum(abs(j) for j in jumps.values()) + 1.0
         tol = 8 * math.ulp(mag) + 1e-9
+        # the process-wide time seam reads this run's clock too, so play()'s default now=time.time can be used
+        simtime.activate(clock.now, clock.sleep)
         try:
-            gen = mf.play(meta_messages=plan['meta_messages'], now=clock.now)
+            if plan.get('default_now'):
+                gen = mf.play(meta_messages=plan['meta_messages'])
+                stats['probe:play_default_clock'] += 1
+            else:
+                gen = mf.play(meta_messages=plan['meta_messages'], now=clock.now)
         except Exception as e:
             raise Violation(f'raised:{type(e).__name__}@play', f'play() raised {e!r}')
         start_reading = None
@@ -541,7 +556,7 @@ class Playback(BaseEngine):
                          'fix_end_of_track', 'mido.midifiles.units.tick2second / second2tick'],
                 'stub': ['clock passed as play(now=...)', 'time.sleep in mido.midifiles.midifiles -> virtual clock',
                          'the consumer of the generator'],
-                'not_run': ["play()'s default now=time.time binding (the documented now= parameter is used)"]}
+                'not_run': []}
 
     def assumptions(self, prop):
         return ['Oracle: independent stable merge (absolute tick, track index, position) and tempo-map integral in '
